@@ -16,7 +16,7 @@ MODULE = "PyseqmVerif.Properties.C11"
 from .registry import THEOREMS_C11 as THEOREMS  # noqa: E402
 
 META = {
-    "technique": "Lean 4 induction over run-loop steps (model MDOut) + AST-translated _n_timepoints + exhaustive/seeded cadence-lattice correspondence through the real run loop",
+    "technique": "Lean 4 induction over run-loop steps (model MDOut; TDM stream with nested gates and capacity guard in C11Tdm) + AST-translated _n_timepoints and output gates (incl. do_tdm) + exhaustive/seeded cadence-lattice correspondence through the real run loop",
     "level_text": "Theorems (all cadence tuples incl. 0/coprime/larger-than-run, all run lengths): every HDF5/XYZ/screen/checkpoint stream of the modelled run loop equals the due-step specification, capacity = number of due rows, labels strictly increasing. The model is tied to the code by regenerating _n_timepoints from its Python AST on every run and by a differential check of the real run loop + HDF5Writer + XYZWriter (stub or real force engine) against the compiled Lean model on a lattice of cadence tuples.",
     "level_note": "Trusted: Lean kernel; translator for _n_timepoints; harness reading HDF5/XYZ/checkpoint files; the stub force engine replaces only the electronic-structure call (scheduling/writer code under test is the real one). Values stored per step are validated bitwise against a cadence-1 reference run (probe), not proved. The TDM stream is modelled (C11Tdm.lean: rows = steps due for both the data and the TDM cadence, exact iff every multiple of the TDM cadence in the run is a multiple of the data cadence; F10 witness) and tied by the AST translation of its do_tdm test only, not by a differential run (it needs an excited-state engine with save_tdm).",
     "design_ref": "DESIGN.md section 5 C11",
